@@ -144,3 +144,20 @@ Theorem truncation_refuted :
   end_step 0%float 0x1.3333333333333p-2%float 0x1.999999999999ap-4%float = 3.
 Proof. vm_compute. split; reflexivity. Qed.
 Print Assumptions truncation_refuted.
+
+(* (6) a driver object started over: whatever the object did before (any sequence of initialisations and steps),
+   after initialize() and n steps its recorder holds exactly the labels of the steps 0..n of the new run, in order:
+   the second run's grid is a fresh one *)
+Theorem restart_records_fresh_grid :
+  forall (pre : list rop) (n : nat), rec_labels false (pre ++ RInit :: repeat RStep n) = seq 0 (S n).
+Proof. exact restart_fresh_grid_lemma. Qed.
+Print Assumptions restart_records_fresh_grid.
+
+(* ... and a recorder that is kept across initialize() holds the labels of both runs *)
+Theorem kept_recorder_refuted :
+  exists pre n, rec_labels true (pre ++ RInit :: repeat RStep n) <> seq 0 (S n).
+Proof. exists [RInit; RStep], 1%nat. vm_compute. discriminate. Qed.
+Print Assumptions kept_recorder_refuted.
+
+Example restart_premise_met : rec_labels false ([RInit; RStep; RStep; RStep] ++ RInit :: repeat RStep 2) = [0; 1; 2]%nat.
+Proof. reflexivity. Qed.
